@@ -607,15 +607,15 @@ derived from the code-point positions). -/
 def translateStep (tr : Bytes → Option Bytes) (text : Bytes) (r : Ref) : Bytes :=
   match r.data with
   | .collab .. => text
-  | .entity n f =>
+  | .entity n _ =>
     match tr n with
     | none => text
     | some n' =>
       if n' = n then text
       else
-        let start := (mkIter text r.pos.start).bp
-        let fin := (mkIter text r.pos.finish).bp
-        text.take start ++ (RefData.entity n' f).toString ++ text.drop (start + (fin - start))
+        -- only the entity name, the first field right after "@{", is replaced
+        let start := (mkIter text r.pos.start).bp + 2
+        text.take start ++ n' ++ text.drop (start + n.length)
 
 /-- `ManagedText::TranslateRaw`. -/
 def translateRaw (v : Variant) (tr : Bytes → Option Bytes) (raw : Bytes) : Outcome Bytes :=
